@@ -243,15 +243,22 @@ def step_table(ctx: Ctx, rule: str) -> None:
                "" if not bad2 else f"an object-level tool changed its parameters: {sorted(bad2)}")
     f = ctx.repo.func(f"{IS}:_reuse_tool_with_param_dict")
     body = [ast.unparse(s) for s in f.node.body if not (isinstance(s, ast.Expr) and isinstance(s.value, ast.Constant))]
-    # save a copy, apply, run the tool (once), restore; the tool's status may be carried through (see rule 5x)
-    ok3 = body in (["setup_dict = config['param_dict'].copy()", "config['param_dict'].update(param_dict)", "tool(config, tag=tag)", "config['param_dict'] = setup_dict"],
-                   ["setup_dict = config['param_dict'].copy()", "config['param_dict'].update(param_dict)", "status = tool(config, tag=tag)", "config['param_dict'] = setup_dict", "return status"])
-    if not ok3 and len(body) == 3 and body[2].startswith("try:"):
-        t = f.node.body[-1]
-        ok3 = (body[:2] == ["setup_dict = config['param_dict'].copy()", "config['param_dict'].update(param_dict)"] and isinstance(t, ast.Try) and not t.handlers
-               and [ast.unparse(x) for x in t.body] == ["return tool(config, tag=tag)"] and [ast.unparse(x) for x in t.finalbody] == ["config['param_dict'] = setup_dict"])
-    ctx.record(rule + "p", "PAIR", f.ref, "the temporary parameters are applied for the reused tool only: a copy is saved before and restored after", ok3, {"body": body},
-               "" if ok3 else "parameters of create/collect/clean leak into the later steps of a chain")
+    # save a copy, apply, run the tool (once), restore on EVERY exit: Manu.run goes on with the chain after a raising step,
+    # so a restore on the normal path only leaks the temporary parameters into the later steps
+    tries = [t for t in f.node.body if isinstance(t, ast.Try)]
+    pre = [ast.unparse(x) for x in f.node.body if isinstance(x, ast.Assign) or (isinstance(x, ast.Expr) and isinstance(x.value, ast.Call))]
+    ok3 = False
+    why3 = "parameters of create/collect/clean leak into the later steps of a chain"
+    if len(tries) == 1 and not tries[0].handlers:
+        t = tries[0]
+        tool_calls = [c for x in t.body for c in calls_in(x) if isinstance(c.func, ast.Name) and c.func.id == "tool"]
+        ok3 = (pre[:2] == ["setup_dict = config['param_dict'].copy()", "config['param_dict'].update(param_dict)"] and len(tool_calls) == 1
+               and ast.unparse(tool_calls[0]) == "tool(config, tag=tag)" and [ast.unparse(x) for x in t.finalbody] == ["config['param_dict'] = setup_dict"]
+               and f.node.body.index(t) > 0 and len([c for c in calls_in(f.node) if isinstance(c.func, ast.Name) and c.func.id == "tool"]) == 1)
+    elif any("config['param_dict'] = setup_dict" in b for b in body):
+        why3 = "the temporary parameters of create/collect/clean are restored only when the reused tool returns normally: a raising step (after which the chain goes on) leaks them into all later steps"
+    ctx.record(rule + "p", "PAIR", f.ref, "the temporary parameters are applied for the reused tool only: a copy is saved before and restored in a finally (normal return and exception alike)", ok3, {"body": body},
+               "" if ok3 else why3)
     # status propagation: a step that reuses a status-returning tool hands that status on (Manu.run counts None as success)
     status_tools = {fn_.name for fn_ in tree.body if isinstance(fn_, ast.FunctionDef) and any("with_cartesian_graph" in ast.unparse(d) for d in fn_.decorator_list)} | {"run"}
 
